@@ -297,12 +297,12 @@ func (w *worker[T, JobType]) processReservedJob() (err error) {
 		return ErrFailedToCastJob
 	}
 
-	if j.IsClosed() {
+	// a cancelled job is skipped; otherwise it is ours from here on
+	if !j.startProcessing() {
 		return nil
 	}
 
 	dispatched = true
-	j.changeStatus(processing)
 	j.setAckId(ackId)
 
 	// then job will be process by the processSingleJob function inside spawnWorker
